@@ -90,7 +90,7 @@ def run(ctx):
             dr = [lo, lo + rng.randint(1, 2)]
         title = rng.choice(["", "T"]); labels = rng.choice([[], ["xx", "yy"]])
         job = dict(kind="landscape", lkind=lkind, bars=[[e.f(b), e.f(d)] for b, d in bars], title=title, labels=labels, depth_range=dr, dispatch=rng.random() < 0.5,
-                   ax_is_current=rng.random() < 0.5)
+                   ax_is_current=rng.random() < 0.5, lazy=int(rng.random() < 0.4))
         if lkind == 2:
             if [0, 16] not in bars:
                 bars.append([0, 16])        # a bar spanning the grid: the sampled landscape is never the "empty" sentinel
@@ -226,6 +226,7 @@ def judge(ctx, jobs, skel, nproc=12):
                 st = styles.setdefault(tuple(l["style"]), len(styles) + 1)
                 onax.append([D(l["p"][0]), D(l["p"][1]), D(l["p"][2]), D(l["p"][3]), st])
             c["onax"], c["onother"] = onax, r["onother"]
+            c["nlines"], c["nframe"] = r.get("nlines", 0), r.get("nframe", -1)
         c["lattice"] = lat
         cases.append(c); idx.append(i)
     verdicts, st = tlc.run_batch("PlotScene", cases, nproc=12)
